@@ -667,8 +667,10 @@ def run_check(mod, tier="quick", seed=0, replay=None):
             take_extra({"obligations": 1, "discharged": 0, "problems": ["regenerated obligations could not be run: %r" % (e,)]})
 
     # ---- 3. verdict -----------------------------------------------------------------------
+    shrink_hs = [hashseeds[0]]
+
     def fails_now(case):
-        o = run_impl(modname, [case], hashseed=hashseeds[0])[0]
+        o = run_impl(modname, [case], hashseed=shrink_hs[0])[0]
         okp, _ = mod.predicate(case, o)
         return not okp
 
@@ -687,8 +689,8 @@ def run_check(mod, tier="quick", seed=0, replay=None):
         reported.add(key)
         small = c
         try:
-            if hs == hashseeds[0]:
-                small = shrink(mod, c, fails_now)
+            shrink_hs[0] = hs          # shrink under the hash seed the failure was seen with
+            small = shrink(mod, c, fails_now)
         except Exception:
             small = c
         try:
@@ -729,31 +731,42 @@ def run_check(mod, tier="quick", seed=0, replay=None):
         n_search = 400 if tier == "quick" else 4000
         if escalate:
             n_search = int(os.environ.get("VERIF_ESCALATE_N", "1500" if tier == "quick" else "6000"))
-        extra = sg(rng, n_search) if sg else mod.generate(rng, "thorough" if tier == "thorough" else "quick")
-        pool = [d[0] for d in real_dis] + extra
-        for i, c in enumerate(pool):
-            c["_id"] = i
-        for hs in hashseeds:
-            try:
-                outs = run_impl(modname, pool, hashseed=hs)
-            except Exception as e:
-                notes.append("search run failed: %s" % e)
-                break
-            for c, o in zip(pool, outs):
+        # rounds of fresh inputs until a failing one is found, the stream is used up, or (escalation) the time budget ends
+        budget = float(os.environ.get("VERIF_SEARCH_SECONDS", "150" if tier == "quick" else "900"))
+        t_search = time.time()
+        rounds, searched = 0, 0
+        while found is None:
+            rounds += 1
+            extra = sg(rng, n_search) if sg else mod.generate(rng, "thorough" if tier == "thorough" else "quick")
+            pool = ([d[0] for d in real_dis] if rounds == 1 else []) + extra
+            for i, c in enumerate(pool):
+                c["_id"] = i
+            for hs in hashseeds:
                 try:
-                    okp, detail = mod.predicate(c, o)
+                    outs = run_impl(modname, pool, hashseed=hs)
                 except Exception as e:
-                    okp, detail = False, "predicate raised %r" % (e,)
-                if not okp:
-                    fo = getattr(mod, "finding_of", None)
-                    fid = fo(c, o, detail) if fo else None
-                    if fid is not None and fid in open_findings:
-                        known_hits.setdefault(fid, (c, o, detail))
-                        continue
-                    found = (c, o, detail, hs)
+                    notes.append("search run failed: %s" % e)
                     break
-            if found:
+                searched += len(pool)
+                for c, o in zip(pool, outs):
+                    try:
+                        okp, detail = mod.predicate(c, o)
+                    except Exception as e:
+                        okp, detail = False, "predicate raised %r" % (e,)
+                    if not okp:
+                        fo = getattr(mod, "finding_of", None)
+                        fid = fo(c, o, detail) if fo else None
+                        if fid is not None and fid in open_findings:
+                            known_hits.setdefault(fid, (c, o, detail))
+                            continue
+                        found = (c, o, detail, hs)
+                        break
+                if found:
+                    break
+            if found or rounds >= 6 or time.time() - t_search > budget or (notes and "search run failed" in notes[-1]):
                 break
+        notes.append("failing-input search: %d round(s), %d evaluations, %.0fs%s" % (
+            rounds, searched, time.time() - t_search, " (source changed since baseline)" if escalate else ""))
         if found:
             c, o, detail, hs = found
             small = c
@@ -776,7 +789,7 @@ def run_check(mod, tier="quick", seed=0, replay=None):
                 "first_disagreement": first,
                 "case": first["case"] if first else None,
                 "hashseed": first["hashseed"] if first else None,
-                "searched": len(pool) * len(hashseeds)}))
+                "searched": searched}))
 
     # ---- 4. evidence + output ---------------------------------------------------------------
     for fid, (c, o, detail) in known_hits.items():
